@@ -391,6 +391,9 @@ func collectAccesses(p *core.Prog, f *types.Var) []fieldAccess {
 
 // isConstructionAlloc: a composite literal / new(T) being initialised before it is published.
 func isConstructionAlloc(al *ssa.Alloc) bool {
+	if !al.Heap {
+		return true // a local variable whose address does not escape: private to this activation
+	}
 	return al.Comment == "complit" || strings.HasPrefix(al.Comment, "new")
 }
 
@@ -421,6 +424,14 @@ func singleShotOwners(p *core.Prog, n *types.Named, owners map[*ssa.Function]boo
 	for o := range owners {
 		if isSingleShot(p, n, o) && o.Signature.Recv() != nil {
 			root = o
+		}
+	}
+	if root == nil {
+		// the single-shot method may only delegate to the owners (Sync -> listen + acceptLoop)
+		for i := 0; i < n.NumMethods(); i++ {
+			if m := p.FuncOf(n.Method(i)); m != nil && m.Blocks != nil && isSingleShot(p, n, m) {
+				root = m
+			}
 		}
 	}
 	if root == nil {
